@@ -44,6 +44,14 @@ fn main() {
             "formats" => formats::replay_json(&v["replay"]),
             "dsp" => dsp::replay_json(&v["replay"]),
             "e2e" => e2e::replay_json(&v["replay"]),
+            "derive-eof" => {
+                let mut tmp = vcommon::Report::new("C19", "envx");
+                subjects_derive::eof_matrix(&mut tmp);
+                match tmp.violations.iter().find(|x| x.replay["combo"] == v["replay"]["combo"] && x.replay["n"] == v["replay"]["n"]) {
+                    Some(x) => Err(x.message.clone()),
+                    None => Ok(()),
+                }
+            }
             e => Err(format!("unknown engine {e:?}")),
         };
         match r {
